@@ -463,6 +463,11 @@ pub fn gen_c14(rng: &mut Rng, tier: Tier) -> Result<Value, serde_json::Error> {
             if rng.bool() {
                 o.insert(rng.pick(&["straße", "住所", "prénom", "имя", "ключ😀"]).to_string(), json!({"国": "日本", "naïve": [1, 2]}));
             }
+            // a caller that passes `_sd_alg` along with the claims (copied from another credential,
+            // or meant as a request): whatever the issuer makes of it, digests stay SHA-256
+            if rng.chance(1, 6) {
+                o.insert("_sd_alg".into(), json!(*rng.pick(&["sha-384", "sha-512", "sha-256", "SHA-256", "md5", "sha3-256"])));
+            }
             // a very wide object (dozens of hidden members side by side)
             if rng.chance(1, 6) {
                 let w: Map<String, Value> = (0..(28 + rng.usize(50))).map(|i| (format!("w{}", i), json!(i))).collect();
